@@ -2,9 +2,9 @@
 from ..core import AnchorMissing
 
 W = {"write_u8": "u8", "write_u16": "u16", "write_u32": "u32", "write_u64": "u64", "write_u128": "u128",
-     "write_i64": "i64", "write_varint": "varint", "write_all": "bytes", "extend_from_slice": "bytes", "push": "u8"}
+     "write_i64": "i64", "write_varint": "varint", "put_u8": "u8", "put_u16": "u16", "put_u32": "u32", "put_u64": "u64", "put_u128": "u128", "write_all": "bytes", "extend_from_slice": "bytes", "push": "u8"}
 R = {"read_u8": "u8", "read_u16": "u16", "read_u32": "u32", "read_u64": "u64", "read_u128": "u128",
-     "read_i64": "i64", "decode_var": "varint", "read_varint": "varint", "read_exact": "bytes", "from_be_bytes": "be", "to_vec": "bytes"}
+     "read_i64": "i64", "decode_var": "varint", "get_u8": "u8", "get_u16": "u16", "get_u32": "u32", "get_u64": "u64", "get_u128": "u128", "read_varint": "varint", "read_exact": "bytes", "from_be_bytes": "be", "to_vec": "bytes"}
 
 
 def rpo(body):
